@@ -6,8 +6,9 @@
 (*     zz: an unknown name).  after must equal the ConfigOps operator applied to   *)
 (*     before (the spec's action); stray counts keys outside the projection that    *)
 (*     differ from the curated defaults.                                            *)
-(*  Parts{e[], a[], b[], e2[]}: lints (digests) of one document under an enabled    *)
-(*     set E, under the two halves of a partition E = A + B, and under E again.     *)
+(*  Parts{e[], a[], b[], e2[], fresh[], order}: lints (digests) of one document under an enabled *)
+(*     set E, under the two halves of a partition E = A + B (in a logged order, on  *)
+(*     one long-lived linter), under E again, and under E on a fresh linter.        *)
 (*  Overlay{want[], ls[], wasm_ok, wasm_roundtrip_ok}: user settings overlaid on    *)
 (*     curated defaults through harper-ls's and harper-wasm's entry formats.        *)
 EXTENDS ConfigOps, Json, IOUtils
@@ -51,6 +52,7 @@ Check(e) ==
     [] e.ev = "Parts" ->
          IF ~BagSum(e.e, e.a, e.b) THEN PrintT(<<"REJECT", l, "not-the-combination-of-its-parts", "">>)
          ELSE IF ~BagEq(e.e, e.e2) THEN PrintT(<<"REJECT", l, "same-config-different-result", "">>)
+         ELSE IF ~BagEq(e.e, e.fresh) THEN PrintT(<<"REJECT", l, "history-of-configurations-shows", "">>)
          ELSE TRUE
     [] e.ev = "Overlay" ->
          IF ~BagEq(e.want, e.ls) THEN PrintT(<<"REJECT", l, "ls-overlay-differs", "">>)
